@@ -203,7 +203,7 @@ theorem complete_labels (d : FileDesc α) (hwf : WF d = true) {b : BlockDesc α}
 
 /-- number of data-frame rows differs from the data length -/
 theorem complete_rows (d : FileDesc α) (hwf : WF d = true) {b : BlockDesc α} {a : ArrayDesc α} {x : DimDesc α}
-    {rows n : Nat} (hb : b ∈ d.blocks) (ha : a ∈ b.arrays) (hx : x ∈ a.dims) (hkind : x.kind = .frame rows)
+    {rows n : Nat} {cu : Option String} (hb : b ∈ d.blocks) (ha : a ∈ b.arrays) (hx : x ∈ a.dims) (hkind : x.kind = .frame rows cu)
     (h1 : 1 ≤ x.index) (hn : a.shape[x.index - 1]? = some n) (hne : rows ≠ n) :
     ∃ m ∈ (validateFile d).errors, m.id = a.ent.id := by
   apply size_breach d hwf hb ha hx (k := .rows)
@@ -293,7 +293,7 @@ def ent (i : String) : Named := ⟨i, "n", .val "t", .val 5⟩
 /-- a conforming 3x2 array (range + sampled descriptor), non-SI array unit (soft) -/
 def a0 : ArrayDesc Int :=
   { ent := ent "a0", dtypeSet := .val true, dimCount := .val 2, shape := [3, 2],
-    dims := [⟨1, .range [1, 2, 2] (.val (some "ms")), "ms"⟩, ⟨2, .sampled (.val 1) (.val false) (.val none), "none"⟩],
+    dims := [⟨1, .range [1, 2, 2] (.val (some "ms"))⟩, ⟨2, .sampled (.val 1) (.val false) (.val none)⟩],
     unit := .val (some "foo"), polyN := .val 0, originSet := .val false }
 def t0 : TagDesc := { ent := ent "t0", isMulti := false, posSet := .val true, units := ["s", "kHz"], refs := .val [["ms", "none"]], features := [] }
 def p0 : PropDesc := { id := "p0", name := "p", created := .val 5, valueCount := .val 2, unit := .val none }
@@ -309,11 +309,11 @@ example : WF conforming = true ∧ Conforms conforming = true ∧ (entities conf
 /-- 2x3x2 array: second descriptor has 4 ticks for 3 data entries and is unsorted, third has interval 0 -/
 def a1 : ArrayDesc Int :=
   { ent := ent "a1", dtypeSet := .val true, dimCount := .val 3, shape := [2, 3, 2],
-    dims := [⟨1, .set 0, "none"⟩, ⟨2, .range [1, 5, 3, 4] (.val none), "none"⟩, ⟨3, .sampled (.val 0) (.val false) (.val (some "mV")), "mV"⟩],
+    dims := [⟨1, .set 0⟩, ⟨2, .range [1, 5, 3, 4] (.val none)⟩, ⟨3, .sampled (.val 0) (.val false) (.val (some "mV"))⟩],
     unit := .val none, polyN := .val 0, originSet := .val false }
 /-- one descriptor for two data dimensions -/
 def a2 : ArrayDesc Int :=
-  { ent := ent "a2", dtypeSet := .val true, dimCount := .val 1, shape := [2, 2], dims := [⟨1, .set 2, "none"⟩],
+  { ent := ent "a2", dtypeSet := .val true, dimCount := .val 1, shape := [2, 2], dims := [⟨1, .set 2⟩],
     unit := .val none, polyN := .val 0, originSet := .val false }
 /-- the witness of D19: units {mV, V} against dimensions {s, mV}: the first is not convertible, the second is -/
 def t1 : TagDesc := { ent := ent "t1", isMulti := false, posSet := .val true, units := ["mV", "V"], refs := .val [["s", "mV"]],
@@ -353,7 +353,7 @@ example : Rel breached ⟨(validateFile breached).errors.filter (·.id != "a1"),
     The HDF5 backend cannot produce such a description (a descriptor's index is the position it is fetched from). -/
 def notWF : ArrayDesc Int :=
   { ent := ent "x", dtypeSet := .val true, dimCount := .val 2, shape := [2, 2],
-    dims := [⟨5, .set 0, "none"⟩, ⟨2, .set 3, "none"⟩],
+    dims := [⟨5, .set 0⟩, ⟨2, .set 3⟩],
     unit := .val none, polyN := .val 0, originSet := .val false }
 example : arrayWF notWF = false ∧ arrayBreaches notWF = [.labels] ∧ (validateArray notWF).errors = [] := by decide +kernel
 end Example
